@@ -20,7 +20,7 @@ func init() {
 	register(&Check{
 		ID: "C10", Level: "exploration", Configs: []string{"clean", "clean", "foreign"},
 		Run:         runC10,
-		QuickRuns:   150_000,
+		QuickRuns:   600_000,
 		ThoroughSec: 600,
 		Rule: "one run = one stream of 1-12 access units (1-6 NAL units each: types 1-23, sizes 2..5*MTU around mtu-1/mtu/mtu+1 and k*(mtu-2)+1+-1, 3-/4-byte start codes, " +
 			"SPS+PPS pairs adjacent or split across calls, AUD/filler sprinkled), MTU >= 3 biased to 3-40 and 1200, StapA on/off, Annex-B/AVC; config clean = real payloader, " +
